@@ -22,13 +22,14 @@ def items(tier):
     for p in hp:
         for api_k in ([1, 3] if tier == "quick" else [0, 1, 2, 3, 4, 5]):
             out.append(mk("C13", p, "history", 2, ALPHA, mode=api_k, n=1))
-            if tier != "quick":
-                out.append(mk("C13", p, "history", 2, ALPHA, mode=api_k, n=2, timeout_s=1500))
+            if tier != "quick" and p in HIST[:6] and api_k in (1, 2, 3):
+                # two earlier calls: 16 API pairs x two symbolic haystacks; kept to one byte each and to six patterns
+                out.append(mk("C13", p, "history", 1, ALPHA, mode=api_k, n=2, timeout_s=600))
     # two earlier calls of different kinds before a submatch call (state that one kind of search narrows and only another kind
     # restores): capture patterns whose plain searches run on the same pooled simulator
     for p in HIST2:
         for api_k in ([2] if tier == "quick" else [1, 2, 5]):
-            out.append(mk("C13", p, "history", 1 if tier == "quick" else 2, ALPHA, mode=api_k, n=2, timeout_s=1500))
+            out.append(mk("C13", p, "history", 1, ALPHA, mode=api_k, n=2, timeout_s=600))
     # an enumeration call (resumes at offsets > 0 on pooled state) before a boolean call
     for p in HIST3:
         for api_k in ([0] if tier == "quick" else [0, 1, 2]):
